@@ -361,6 +361,33 @@ fn run(ctx: &mut Ctx) {
             }
         }
     }
+    // the input ends without a final line feed: the last line - a frame or junk - is a line like any other
+    {
+        job += 1;
+        if ctx.mine(job) {
+            let stream: Vec<Vec<u8>> = vec![vf[0].clone(), vf[5].clone(), vf[2].clone()];
+            let (_, clean) = run_clean(&cfg, &stream);
+            let mut cases: Vec<Vec<(usize, usize)>> = vec![vec![]];
+            cases.extend(positions(stream.len(), 1, &all));
+            for ins in cases {
+                let mut content = build(&stream, &ins, &junk);
+                content.pop();
+                let t = new_table();
+                let o = run_file(&cfg, &content, &t);
+                ctx.eval();
+                ctx.count("no-final-line-feed");
+                if !o.is_ok() || snapshot(&t) != clean {
+                    let desc: Vec<String> = ins.iter().map(|(p, j)| format!("'{}' before line {}", junk[*j].0, p + 1)).collect();
+                    ctx.violation(
+                        &format!("C13/no-final-line-feed/{}", cfg.label()),
+                        &format!("[{}]", desc.join(", ")),
+                        || format!("three frames with junk [{}], the input ending without a line feed: reader {}, {} row(s); with a final line feed {} row(s)", desc.join(", "), o.label(), snapshot(&t).len(), clean.len()),
+                        || json!({"kind": "nolf", "ins": ins, "cfg": cfg.opts}),
+                    );
+                }
+            }
+        }
+    }
     // long runs of one kind of unusable line between accepted frames (noise limits, streak counters)
     for (ji, (jn, jb)) in junk.iter().enumerate() {
         if jb.len() > 200 {
@@ -435,6 +462,26 @@ fn junk_run(ctx: &mut Ctx, cfg: &Cfg, ji: usize, jn: &str, jb: &[u8], n: usize) 
 }
 
 fn replay(ctx: &mut Ctx, case: &Value) {
+    if case.get("kind").and_then(|x| x.as_str()) == Some("nolf") {
+        let opts: Vec<String> = case.get("cfg").and_then(|c| c.as_array()).map(|a| a.iter().filter_map(|x| x.as_str().map(String::from)).collect()).unwrap_or_default();
+        let o: Vec<&str> = opts.iter().map(|s| s.as_str()).collect();
+        let cfg = Cfg::new(&o);
+        let junk = junk_alphabet();
+        let vf: Vec<Vec<u8>> = valid_frames().iter().map(|f| f.hex().into_bytes()).collect();
+        let stream: Vec<Vec<u8>> = vec![vf[0].clone(), vf[5].clone(), vf[2].clone()];
+        let ins: Vec<(usize, usize)> = case.get("ins").and_then(|s| s.as_array()).map(|a| a.iter().filter_map(|x| Some((x.get(0)?.as_u64()? as usize, x.get(1)?.as_u64()? as usize))).collect()).unwrap_or_default();
+        let (_, clean) = run_clean(&cfg, &stream);
+        let mut content = build(&stream, &ins, &junk);
+        content.pop();
+        let t = new_table();
+        let oc = run_file(&cfg, &content, &t);
+        let same = snapshot(&t) == clean;
+        crate::run::say(&format!("three frames, junk {ins:?}, no final line feed: reader {}, same table as with a final line feed: {same}", oc.label()));
+        if !oc.is_ok() || !same {
+            ctx.violation("C13/no-final-line-feed", "replay", || "table differs".into(), || case.clone());
+        }
+        return;
+    }
     if case.get("kind").and_then(|x| x.as_str()) == Some("junk_run") {
         let opts: Vec<String> = case.get("cfg").and_then(|c| c.as_array()).map(|a| a.iter().filter_map(|x| x.as_str().map(String::from)).collect()).unwrap_or_default();
         let o: Vec<&str> = opts.iter().map(|s| s.as_str()).collect();
